@@ -2,6 +2,10 @@
 import random
 import asmgen, asmcommon
 
+# parts of an assembly result the property does not speak about: a difference in these alone breaks the
+# correspondence but is not an input on which the property fails (reported with no-failing-input-found)
+AUX = ('bps', 'spans')
+
 ASSUMPTIONS = [
     "a numeric literal denotes a 16-bit value; a signed field is checked on that value read as two's complement",
     "programs of more than 65,534 statements are rejected for their size (addressability side condition)",
@@ -116,7 +120,7 @@ def gen_cases(tier, seed):
 def correspondence(ctx, violations, known_hits):
     cases, tags = gen_cases(ctx.tier, ctx.seed)
     profiles = ("debug",) if ctx.tier == "quick" else ("debug", "release")
-    r = asmcommon.run_asm_cases(ctx, cases, tags, violations, profiles,
+    r = asmcommon.run_asm_cases(ctx, cases, tags, violations, profiles, aux=AUX,
                                 prop_note="the model's accept/reject decision is proved to be the 'fits' predicate at operand level (C04 theorems)")
     ctx.cleanup()
     return {
